@@ -1,14 +1,194 @@
 import Driver.Proto
-/-! Driver sub-command `loader` (stub – filled in by its cluster). -/
+import PtVerif.Model.Loaders
+import PtVerif.Generated.ElementBase
+import PtVerif.Generated.Constants
+import PtVerif.Generated.MassTables
+import PtVerif.Generated.Density
+/-! Driver sub-command `loader`: the table loaders (C06, C07, C20) at `Float`.
+
+Raw table text crosses the protocol hex-encoded (two digits per byte, one token), so that blanks,
+tabs and newlines inside the tables survive the line/token protocol.
+
+    mass_iso <hex> | mass_el <hex> | mass_ab <hex>     set the raw text of a mass table      (no reply)
+    dens_clear | dens <symhex> <m> <e> | dens <symhex> N    `element_densities` entries       (no reply)
+    mass_load              run `mass.init` + `density.init`      R ok | R ERR
+    q_el <z>               R mass unc density number_density interatomic_distance
+    q_iso <z> <a>          R exists mass unc abundance abundance_unc density
+    q_isotopes <z>         R a1 a2 …
+    mass_selfcheck         string-level parse of the raw text = Generated rows?   R ok n | R MISMATCH …
+    pu <hex>               parse_uncertainty                      R value unc | R N N | R ERR
+
+Numbers: 16 hex digits (bit pattern), `N` = None, `X` = the access raises. -/
 namespace Driver.LoaderCmd
-open Driver
+open Driver PtNum PtLoad
+
+def hexNib (c : Char) : Option Nat := PtNum.hexVal c
+
+partial def unhexGo : List Char → Array UInt8 → Option (Array UInt8)
+  | [], acc => some acc
+  | a :: b :: r, acc =>
+    match hexNib a, hexNib b with
+    | some x, some y => unhexGo r (acc.push (UInt8.ofNat (x * 16 + y)))
+    | _, _ => none
+  | _, _ => none
+
+/-- hex token → text (UTF-8) -/
+def unhex (s : String) : Option Str :=
+  if s == "-" then some [] else
+  match unhexGo s.toList #[] with
+  | some bytes => (String.fromUTF8? (ByteArray.mk bytes)).map String.toList
+  | none => none
 
 structure St where
-  dummy : Unit := ()
+  isoText : Str := []
+  elText : Str := []
+  abText : Str := []
+  densRows : List DensityRow := []
+  mass : Option (MassState Float) := none
+  dens : List (Nat × Option Float) := []
 
 def init : St := {}
 
+/-- `table[z].symbol` as a code, from `Generated.ElementBase` -/
+def symOf (z : Nat) : Option Nat :=
+  (PtGen.elementBase.find? (fun r => r.1 == z)).map (fun r => r.2.2.2.1)
+
+/-- `getattr(table, symbol)` for an element symbol -/
+def zOf (code : Nat) : Option Nat :=
+  (PtGen.elementBase.find? (fun r => r.2.2.2.1 == code)).map (fun r => r.1)
+
+def showO : Option Float → String
+  | some x => showF x
+  | none => "N"
+
+/-- `X` when the attribute does not exist / the access raises -/
+def showOO : Option (Option Float) → String
+  | some x => showO x
+  | none => "X"
+
+def na : Float := PtGen.avogadro_number
+
+def elMassV (ms : MassState Float) (z : Nat) : Option (Option Float) :=
+  (ms.elMassOf z).map fun vu => vu.map (·.1)
+def elMassU (ms : MassState Float) (z : Nat) : Option (Option Float) :=
+  (ms.elMassOf z).map fun vu => vu.map (·.2)
+def isoMassV (ms : MassState Float) (z a : Nat) : Option (Option Float) :=
+  (ms.isoMassOf z a).map fun vu => vu.map (·.1)
+def isoMassU (ms : MassState Float) (z a : Nat) : Option (Option Float) :=
+  (ms.isoMassOf z a).map fun vu => vu.map (·.2)
+
+def qEl (st : St) (ms : MassState Float) (z : Nat) : String :=
+  let m := elMassV ms z
+  let rho := elDensity st.dens z
+  let nd := elDerived (numberDensityVal na) rho m
+  let dist := elDerived (interatomicDistanceVal na) rho m
+  s!"{showOO m} {showOO (elMassU ms z)} {showOO rho} {showOO nd} {showOO dist}"
+
+def showX : Option Float → String
+  | some x => showF x
+  | none => "X"
+
+def qIso (st : St) (ms : MassState Float) (z a : Nat) : String :=
+  if !ms.hasIsotope z a then "0" else
+  let ab := ms.isoAbOf z a
+  let dens := isoDensity (elDensity st.dens z) (isoMassV ms z a) (elMassV ms z)
+  s!"1 {showOO (isoMassV ms z a)} {showOO (isoMassU ms z a)} {showX (ab.map (·.1))} {showX (ab.map (·.2))} {showOO dens}"
+
+def sameIso (a b : IsoRow) : Bool :=
+  a.z == b.z && a.sym == b.sym && a.a == b.a && a.m.same b.m && a.avg.same b.avg
+def sameEl (a b : ElRow) : Bool :=
+  a.z == b.z && (match a.value, b.value with
+    | none, none => true
+    | some x, some y => x.same y
+    | _, _ => false)
+def sameAb : AbLine → AbLine → Bool
+  | .header a, .header b => a == b
+  | .entry a u, .entry b w => a == b && u.same w
+  | _, _ => false
+
+def firstDiff {β : Type} (same : β → β → Bool) : Nat → List β → List β → Option Nat
+  | _, [], [] => none
+  | i, x :: xs, y :: ys => if same x y then firstDiff same (i + 1) xs ys else some i
+  | i, _, _ => some i
+
+def massSelfcheck (st : St) : String :=
+  match parseMassTables st.isoText st.elText st.abText with
+  | none => "MISMATCH model-cannot-parse"
+  | some t =>
+    match firstDiff sameIso 0 t.iso PtGen.isoMassRows, firstDiff sameEl 0 t.el PtGen.elMassRows,
+          firstDiff sameAb 0 t.ab PtGen.abLines with
+    | none, none, none => s!"ok {t.iso.length + t.el.length + t.ab.length}"
+    | some i, _, _ => s!"MISMATCH isotope_mass row {i}"
+    | _, some i, _ => s!"MISMATCH element_mass row {i}"
+    | _, _, some i => s!"MISMATCH isotope_abundance line {i}"
+
+def sameDens (a b : DensityRow) : Bool :=
+  a.sym == b.sym && (match a.value, b.value with
+    | none, none => true
+    | some x, some y => x.same y
+    | _, _ => false)
+
 def handle (st : St) : Toks → IO St
+  | ["mass_iso", h] => match unhex h with
+    | some t => pure { st with isoText := t }
+    | none => do reply "ERR bad-hex"; pure st
+  | ["mass_el", h] => match unhex h with
+    | some t => pure { st with elText := t }
+    | none => do reply "ERR bad-hex"; pure st
+  | ["mass_ab", h] => match unhex h with
+    | some t => pure { st with abText := t }
+    | none => do reply "ERR bad-hex"; pure st
+  | ["dens_clear"] => pure { st with densRows := [] }
+  | ["dens", s, "N"] => match unhex s with
+    | some t => pure { st with densRows := st.densRows ++ [⟨symCode t, none⟩] }
+    | none => do reply "ERR bad-hex"; pure st
+  | ["dens", s, m, e] => match unhex s, intTok m, natTok e with
+    | some t, some m, some e => pure { st with densRows := st.densRows ++ [⟨symCode t, some ⟨m, e⟩⟩] }
+    | _, _, _ => do reply "ERR bad-op"; pure st
+  | ["mass_load"] =>
+    let nm : Float := PtGen.neutronMass.toNum
+    let nmu : Float := PtGen.neutronMassUnc.toNum
+    match Mass.loadText symOf nm nmu st.isoText st.elText st.abText with
+    | some ms =>
+      if Density.loadOk zOf st.densRows then do
+        reply "ok"
+        pure { st with mass := some ms, dens := Density.loadRows zOf st.densRows }
+      else do reply "ERR"; pure { st with mass := none }
+    | none => do reply "ERR"; pure { st with mass := none }
+  | ["q_el", z] => do
+    match st.mass, natTok z with
+    | some ms, some z => reply (qEl st ms z)
+    | _, _ => reply "ERR not-loaded"
+    pure st
+  | ["q_iso", z, a] => do
+    match st.mass, natTok z, natTok a with
+    | some ms, some z, some a => reply (qIso st ms z a)
+    | _, _, _ => reply "ERR not-loaded"
+    pure st
+  | ["q_isotopes", z] => do
+    match st.mass, natTok z with
+    | some ms, some z =>
+      let l := (ms.isotopes.filter (·.1 == z)).map (·.2)
+      reply (" ".intercalate ((l.eraseDups.mergeSort (· ≤ ·)).map toString))
+    | _, _ => reply "ERR not-loaded"
+    pure st
+  | ["mass_selfcheck"] => do
+    let d := firstDiff sameDens 0 st.densRows PtGen.densityRows
+    match d with
+    | some i => reply s!"MISMATCH element_densities entry {i}"
+    | none => reply (massSelfcheck st)
+    pure st
+  | ["pu", h] => do
+    match unhex h with
+    | none => reply "ERR bad-hex"
+    | some t =>
+      match parseUncertainty t with
+      | none => reply "ERR"
+      | some u =>
+        match (u.eval : VU Float) with
+        | none => reply "N N"
+        | some (v, d) => reply s!"{showF v} {showF d}"
+    pure st
   | _ => do reply "ERR bad-op"; pure st
 
 end Driver.LoaderCmd
